@@ -260,6 +260,16 @@ def getFrequency : DM Nat := do
   | some f => pure f
   | none => ub .castRange
 
+/-- the receive branch of the LoRa handler up to the callback: read the packet; if that fails
+    the configured length is restored and the handler returns (l.515-522) -/
+def loraReadGuard (configured : UInt16) : DM Unit := do
+  let r ← attempt loraRxReadPayload
+  match r with
+  | .error c => do
+    modH fun h' => { h' with expected := configured }
+    fail c
+  | .ok () => pure ()
+
 /-- `sx127x_lora_handle_interrupt` (a `void` function) -/
 def loraHandleInterrupt : DM Unit := do
   let value ← rread REGIRQFLAGS
@@ -270,13 +280,7 @@ def loraHandleInterrupt : DM Unit := do
   else if value &&& u8 SX127x_IRQ_FLAG_PAYLOAD_CRC_ERROR ≠ 0 then
     modH fun h => { h with curFreq := 0 }
   else if value &&& u8 SX127x_IRQ_FLAG_RXDONE ≠ 0 then do
-    let r ← attempt loraRxReadPayload
-    match r with
-    | .error c => do
-      -- the packet could not be read: the configured length is restored
-      modH fun h' => { h' with expected := h.expected }
-      fail c
-    | .ok () => pure ()
+    loraReadGuard h.expected
     rxCallback
     modH fun h => { h with expected := 0, curFreq := 0 }
   else if value &&& u8 SX127x_IRQ_FLAG_TXDONE ≠ 0 then do
